@@ -1116,7 +1116,7 @@ func isExactConst(info *types.Info, e ast.Expr) bool {
 
 func init() {
 	register(&Rule{
-		ID: "C18.bigfloat-exact-init", Prop: "C18", Also: []string{"C02", "C11", "C16"}, Floor: 6, Controls: 1,
+		ID: "C18.bigfloat-exact-init", Prop: "C18", Also: []string{"C02", "C11", "C16", "C13", "C14"}, Floor: 6, Controls: 1,
 		Doc: "a big.Float that receives an integer (SetInt, SetInt64, SetUint64, SetRat) was created with precision 0 — new(big.Float), &big.Float{} or a Copy of an operand — so that it takes the exact precision of what it is given; big.NewFloat(x) has the fixed 53-bit precision of a float64 and silently rounds integers above 2^53",
 		Run: runBigfloatExactInit,
 	})
@@ -2198,7 +2198,7 @@ func runFirstOperandLikeTheRest(rr *RuleRun) {
 
 func init() {
 	register(&Rule{
-		ID: "C11.prediction-ignores-nullness", Prop: "C11", Floor: 3, Controls: 0,
+		ID: "C11.prediction-ignores-nullness", Prop: "C11", Also: []string{"C13", "C14"}, Floor: 3, Controls: 0,
 		Doc: "in a Type callback of a standard function, the list of argument types handed to convert.Unify / UnifyUnsafe is filled without regard to whether an argument is null: no 'if arg.IsNull() { continue }' guards the accumulation (a typed null still fixes the result type in the type-only prediction, so dropping it makes the prediction from values contradict the prediction from types)",
 		Run: runPredictionIgnoresNullness,
 	})
@@ -4646,7 +4646,7 @@ func mentionsObj(info *types.Info, e ast.Node, o types.Object) bool {
 
 func init() {
 	register(&Rule{
-		ID: "C08.error-not-dropped", Prop: "C08", Also: []string{"C06", "C09", "C11", "C18", "C10", "C15", "C16"}, Floor: 40, Controls: 0,
+		ID: "C08.error-not-dropped", Prop: "C08", Also: []string{"C06", "C09", "C11", "C18", "C10", "C15", "C16", "C13", "C14"}, Floor: 40, Controls: 0,
 		Doc: "in packages cty, convert, gocty, function, function/stdlib, json and msgpack an error stored in a variable is read (tested, returned, wrapped) on every path before the variable is assigned again or the function returns: an error that is re-wrapped into its variable and then not returned, or assigned to a shadowing variable inside a callback, turns a failure into a silent wrong result",
 		Run: runErrorNotDropped,
 	})
@@ -4969,7 +4969,7 @@ func runPlaceholderResolvedInResult(rr *RuleRun) {
 
 func init() {
 	register(&Rule{
-		ID: "C17.constructed-error-used", Prop: "C17", Also: []string{"C16", "C15", "C08", "C11", "C18"}, Floor: 100, Controls: 1,
+		ID: "C17.constructed-error-used", Prop: "C17", Also: []string{"C16", "C15", "C08", "C11", "C18", "C13", "C14"}, Floor: 100, Controls: 1,
 		Doc: "an error value that is constructed (path.NewErrorf / NewError, fmt.Errorf, errors.New, function.NewArgError…) is used — returned, assigned, passed on or panicked with: a constructor call standing alone as a statement builds the error and throws it away, so the failure it describes is silently ignored and the function carries on with a zero value",
 		Run: runConstructedErrorUsed,
 	})
@@ -5012,7 +5012,7 @@ func runConstructedErrorUsed(rr *RuleRun) {
 
 func init() {
 	register(&Rule{
-		ID: "C11.shadowed-case", Prop: "C11", Also: []string{"C01", "C07", "C08", "C12", "C15", "C16", "C17", "C18", "C19"}, Floor: 60, Controls: 1,
+		ID: "C11.shadowed-case", Prop: "C11", Also: []string{"C01", "C07", "C08", "C12", "C15", "C16", "C17", "C18", "C19", "C13", "C14"}, Floor: 60, Controls: 1,
 		Doc: "in a tagless switch no case is shadowed by an earlier one: if every conjunct of an earlier case's condition also occurs among the conjuncts of a later case's condition (after canonical rendering), the later case can never be taken — its more specific handling (a dedicated error, a different result type) is silently replaced by the earlier, more general branch",
 		Run: runShadowedCase,
 	})
@@ -5081,7 +5081,7 @@ func runShadowedCase(rr *RuleRun) {
 
 func init() {
 	register(&Rule{
-		ID: "C17.error-branch-exits", Prop: "C17", Also: []string{"C15", "C16", "C08", "C11", "C18"}, Floor: 100, Controls: 1,
+		ID: "C17.error-branch-exits", Prop: "C17", Also: []string{"C15", "C16", "C08", "C11", "C18", "C13", "C14"}, Floor: 100, Controls: 1,
 		Doc: "the branch taken for a non-nil error ('if err != nil { … }') does not simply run off its end on some path: on every path through it the function exits (return, panic, continue, break, goto), or the error is passed on (assigned to another variable, appended, handed to a call) — an error branch that falls through on one of its paths continues as if the failed step had succeeded",
 		Run: runErrorBranchExits,
 	})
